@@ -162,6 +162,16 @@ def run(ctx):
         ok = t is not None and t[0] == "call" and t[1].endswith("expr_as_np_array") and mentions_name(t, "input_mat")
         ctx.ob("R-THREAD", pt, "variable unpacked by expr_as_np_array", ok if t is not None else None,
                "the recursion runs on the entrywise array of the same variable" if ok else f"recursion operand is {show(t) if t else '?'}", c)
+        # the conversion is generic: partial_trace is also applied to variables that are NOT Hermitian (the complex Q of channel_fidelity), so
+        # the helper must be called on the variable alone -- a structural promise (hermitian=True, symmetric=True) changes entries below the
+        # diagonal for those callers
+        convs = [c_ for c_, cal_ in calls_from(m, pt, "expr_as_np_array.expr_as_np_array")]
+        if convs:
+            extra = [c_ for c_ in convs if len(c_.args) + len(c_.keywords) != 1]
+            ctx.ob("R-THREAD", pt, "the Variable is converted entry by entry with no structural assumption", not extra,
+                   "expr_as_np_array(variable)" if not extra else
+                   f"`{unparse(extra[0])[:60]}` tells the converter that the variable is Hermitian / symmetric: for a general complex Variable the entries below the "
+                   "diagonal are replaced by conjugates (mirrors) of those above it", extra[0] if extra else None)
         packs = calls_from(m, pt, "np_array_as_expr")
         ctx.ob("R-THREAD", pt, "result re-packed by np_array_as_expr", bool(packs),
                "traced array is re-packed into an expression" if packs else "np_array_as_expr is no longer applied to the result")
